@@ -17,6 +17,8 @@
    Flush label names the bytes per slice.  The theorems quantify over all of them, the correspondence
    feeds the observed ones (and rejects a slot that the model does not consider free).
 
+   [gx] = true : WriteBytes / WriteByte / Reserve refuse to allocate for a stream that has been closed (they
+                 return ErrStreamClosed); [gx] = false: they allocate (linkedBuffer has no state check);
    [fx] = true : linkedBuffer.recycle() also cleans the pinned list (the code since a234a74);
    [fx] = false: recycle() does not touch the pinned list (the code before; kept for the regression).
    Which variant /repo is, is translated from buffer.go on every run (Gen/SwitchC09.v). *)
@@ -42,7 +44,7 @@ Record stream := {
 Record qelem := { q_sid : nat; q_chain : list (Z * Z); q_closed : bool }.
 
 Record st := {
-  fx : bool; nslots : nat; qcap : Z;
+  fx : bool; gx : bool; nslots : nat; qcap : Z;
   free : list Z; ext : list Z; leaked : list Z;
   q_srv : list qelem;      (* client -> server *)
   q_cli : list qelem;      (* server -> client *)
@@ -72,8 +74,8 @@ Definition fresh_stream : stream :=
   {| alive := true; half := false; infb := false; sendb := []; sheap := false;
      recvb := []; cpin := false; pinned := []; scpin := false; rheap := false; pend := [] |}.
 
-Definition init (f : bool) (n : nat) (qc : Z) : st :=
-  {| fx := f; nslots := n; qcap := qc; free := map Z.of_nat (seq 0 n); ext := []; leaked := [];
+Definition init (f g : bool) (n : nat) (qc : Z) : st :=
+  {| fx := f; gx := g; nslots := n; qcap := qc; free := map Z.of_nat (seq 0 n); ext := []; leaked := [];
      q_srv := []; q_cli := []; streams := fun _ => dead_stream; keys := [] |}.
 
 (* ---- helpers ---- *)
@@ -87,22 +89,22 @@ Definition subsetb (a b : list Z) : bool := forallb (fun x => mem x b) a.
 Definition sumz (l : list Z) : Z := fold_right Z.add 0 l.
 
 Definition set_stream (k : nat) (v : stream) (s : st) : st :=
-  {| fx := fx s; nslots := nslots s; qcap := qcap s; free := free s; ext := ext s; leaked := leaked s;
+  {| fx := fx s; gx := gx s; nslots := nslots s; qcap := qcap s; free := free s; ext := ext s; leaked := leaked s;
      q_srv := q_srv s; q_cli := q_cli s; streams := updn (streams s) k v;
      keys := if memk k (keys s) then keys s else keys s ++ [k] |}.
 Definition add_free (l : list Z) (s : st) : st :=
-  {| fx := fx s; nslots := nslots s; qcap := qcap s; free := free s ++ l; ext := ext s; leaked := leaked s;
+  {| fx := fx s; gx := gx s; nslots := nslots s; qcap := qcap s; free := free s ++ l; ext := ext s; leaked := leaked s;
      q_srv := q_srv s; q_cli := q_cli s; streams := streams s; keys := keys s |}.
 Definition set_free_ext (f e : list Z) (s : st) : st :=
-  {| fx := fx s; nslots := nslots s; qcap := qcap s; free := f; ext := e; leaked := leaked s;
+  {| fx := fx s; gx := gx s; nslots := nslots s; qcap := qcap s; free := f; ext := e; leaked := leaked s;
      q_srv := q_srv s; q_cli := q_cli s; streams := streams s; keys := keys s |}.
 Definition add_leaked (l : list Z) (s : st) : st :=
-  {| fx := fx s; nslots := nslots s; qcap := qcap s; free := free s; ext := ext s; leaked := leaked s ++ l;
+  {| fx := fx s; gx := gx s; nslots := nslots s; qcap := qcap s; free := free s; ext := ext s; leaked := leaked s ++ l;
      q_srv := q_srv s; q_cli := q_cli s; streams := streams s; keys := keys s |}.
 (* queue towards the server (to_srv = true) or towards the client *)
 Definition queue_to (to_srv : bool) (s : st) : list qelem := if to_srv then q_srv s else q_cli s.
 Definition set_queue (to_srv : bool) (q : list qelem) (s : st) : st :=
-  {| fx := fx s; nslots := nslots s; qcap := qcap s; free := free s; ext := ext s; leaked := leaked s;
+  {| fx := fx s; gx := gx s; nslots := nslots s; qcap := qcap s; free := free s; ext := ext s; leaked := leaked s;
      q_srv := if to_srv then q else q_srv s; q_cli := if to_srv then q_cli s else q;
      streams := streams s; keys := keys s |}.
 
@@ -128,10 +130,12 @@ Definition deliver_data (e : bool) (sid : nat) (p : pentry) (s : st) : st :=
     set_stream k {| alive := true; half := half v; infb := infb v; sendb := sendb v; sheap := sheap v;
                     recvb := recvb v; cpin := cpin v; pinned := pinned v; scpin := scpin v; rheap := rheap v; pend := pend v ++ [p] |} s
   else if e then
-    (* a NEW stream object is accepted; the closed one holds nothing any more (Proofs: dead_empty), so
-       keeping its (empty) lists is the same thing and keeps every slot accounted for by construction *)
-    set_stream k {| alive := true; half := false; infb := false; sendb := sendb v; sheap := sheap v;
-                    recvb := recvb v; cpin := false; pinned := pinned v; scpin := false; rheap := false; pend := pend v ++ [p] |} s
+    (* a NEW stream object is accepted.  The closed one holds nothing any more in its receive side (Proofs:
+       dead_ok); what its owner wrote into its send buffer AFTER the close (possible without gx) stays with the
+       old object, which nothing reaches any more through this id: booked as leaked *)
+    add_leaked (sendb v)
+      (set_stream k {| alive := true; half := false; infb := false; sendb := []; sheap := false;
+                       recvb := recvb v; cpin := false; pinned := pinned v; scpin := false; rheap := false; pend := pend v ++ [p] |} s)
   else
     (* protocol_manager.go: unknown stream -> recycleBuffers *)
     add_free (pslots [p]) s.
@@ -156,7 +160,10 @@ Definition do_poll (e : bool) (s : st) : st :=
 Definition do_write (e : bool) (sid : nat) (new : list Z) (heap : bool) (s : st) : option st :=
   let k := key e sid in
   let v := streams s k in
-  if negb (alive v) then None                                     (* only live streams are written to *)
+  (* a stream that has been closed locally: with gx the write operations return ErrStreamClosed and allocate
+     nothing; without it linkedBuffer has no state check - the slices go into the send buffer of a stream that
+     clean() has already left behind and only a later Flush (which recycles on ErrStreamClosed) returns them *)
+  if negb (alive v) && gx s then Some s
   else if negb (subsetb new (free s) && nodupb new) then None      (* the allocator handed out a slot that is not free *)
   else Some (set_stream k {| alive := alive v; half := half v; infb := infb v; sendb := sendb v ++ new;
                              sheap := sheap v || heap; recvb := recvb v; cpin := cpin v; pinned := pinned v; scpin := scpin v; rheap := rheap v; pend := pend v |}
